@@ -23,7 +23,7 @@ RULE = ("seeded random consistent battery/inverter data sets (1-5 groups, 1-3 ba
         "with a request admitted by the advertised bounds (excl edge / incl edge / inside / surplus). "
         "distinct = distinct canonical case JSON; non-trivial = >=2 groups and (non-zero remainder or a group "
         "whose proportional share is below its min power or a multi-inverter group)")
-REQUIRED_BUCKETS = ["supply", "consume", "multi-inverter", "deficit-regime", "surplus>incl", "exponent-0",
+REQUIRED_BUCKETS = ["manager-level:request-object-changed-while-in-flight", "supply", "consume", "multi-inverter", "deficit-regime", "surplus>incl", "exponent-0",
                     "zero-headroom-group", "remainder-nonzero", "manager-level", "manager-level:adjust_power=False",
                     "manager-level:api-faults"]
 REQUIRED_COUNTERS = ["contract_public", "contract_greedy", "contract_multi", "enforced_bounds_observed",
@@ -47,6 +47,10 @@ def gen(rng: Any, tier: str, i: int) -> Any:
     if case is not None and rng.random() < MANAGER_EVERY:
         case["mgr"] = True
         case["mgr_adjust"] = rng.random() < 0.5  # Request.adjust_power
+        if rng.random() < 0.3:
+            # slow API calls, and the owner of the (mutable) Request object changes it while the request is in flight: the
+            # power reported as set is still the power commanded
+            case["mgr_reuse_request"] = True
         if rng.random() < 0.4:
             # "the power reported as set is the power commanded" also when the API rejects, fails or is slow: per-call
             # outcomes and a request timeout with a fractional part (replies shortly before it are successes)
@@ -113,6 +117,9 @@ def manager_round(case: dict[str, Any]) -> dict[str, Any]:
     mcase.pop("lat_vec", None)
     if case.get("mgr_lat_vec"):
         mcase["lat_vec"] = case["mgr_lat_vec"]
+    if case.get("mgr_reuse_request"):
+        mcase["reuse_request"] = True
+        mcase["latency"] = max(mcase.get("latency", 0.0), 0.3)
     n = sum(len(g["invs"]) for g in case["groups"])
     out: dict[str, Any] = {"rounds": []}
     vec = case.get("mgr_outcomes") or ["ok"] * n
@@ -125,6 +132,8 @@ def _manager_tier(case: dict[str, Any], rec: Any) -> None:
 
     rnd = manager_round(case)
     rec.bucket("manager-level")
+    if case.get("mgr_reuse_request"):
+        rec.bucket("manager-level:request-object-changed-while-in-flight")
     if case.get("mgr_outcomes") and any(o != "ok" for o in case["mgr_outcomes"]):
         # with failing calls: the accounting of C15 (reported as set == accepted set-points, failed == rejected ones)
         from . import c15
